@@ -148,6 +148,10 @@ def run(repo: Repo, rep: Report, tier: str) -> None:
     from . import c19 as _c19, c07 as _c07
     _c19._hook_and_dispatch_contracts(repo, Only(rep, {"R19.8"}))
     _c07._r07_8(repo, Only(rep, {"R07.8"}))
+    from ..core.report import Only as _OnlyX
+    from ..core import corpus as _corpusX
+    from . import c13 as _c13x
+    _c13x._helper_names(repo, _OnlyX(rep, {"R13.9"}), _corpusX.explore_all(repo, tier))
 
 # --------------------------------------------------------------------------- R01.2 sign domain
 def _r01_2(repo: Repo, rep: Report) -> None:
@@ -313,3 +317,6 @@ LEVEL_TEXT += _ADD17
 _ADD21 = " Borrowed: R19.8 (nested dataclasses are packed through the value's own class), R07.8 (declaration order of constructor arguments)."
 EXPLANATION += _ADD21
 LEVEL_TEXT += _ADD21
+_ADD22 = ' Borrowed: R13.9 (helper names fresh per compilation).'
+EXPLANATION += _ADD22
+LEVEL_TEXT += _ADD22
